@@ -203,15 +203,11 @@ class Engine:
                 return True
         if it.ctx.contract_stack:
             return True  # inside an inlined function chain explicitly allowed
-        # small loop-free module-level helpers (e.g. frequenz.sdk._internal._math) are executed as they are:
-        # inlining is always sound (it is the real code); contracts exist to keep paths small
-        node = f.node
-        if not f.cls and isinstance(node, ast.FunctionDef) and len(node.body) <= 12 and not any(
-                isinstance(n, (ast.For, ast.While, ast.AsyncFor, ast.Await, ast.Yield, ast.YieldFrom, ast.Try, ast.With,
-                               ast.Global, ast.Nonlocal)) for n in ast.walk(node)):
-            it.ctx.trusted.add(f"inlined leaf helper {target} (no contract declared; executed as written)")
-            return True
-        return False
+        # A repository function without a contract is executed as written: inlining is always sound (it is the real
+        # code); contracts exist to keep paths small and to state what a caller may rely on.  This keeps the checks
+        # decided when code is moved into a new helper function or method.
+        it.ctx.trusted.add(f"inlined {target} (no contract declared; executed as written)")
+        return True
 
     def note_write(self, it, ref, attr):
         pass
@@ -733,7 +729,28 @@ class Engine:
             # the loop header was edited: a declared loop with the same target (`for x in ...`) / the only declared
             # `while` keeps its invariant, so that the changed loop is still checked against it
             head = key.split(" in ")[0] + " in " if not isinstance(node, ast.While) else "while "
-            cands = [k for k in cur.loops if k.startswith(head) and k not in self.current_report.loops_used]
+            ck = (id(self.current_fn), "exact_loop_keys")
+            if getattr(self, "_exact_keys_cache", (None, None))[0] != ck:
+                # declared loops that some loop of the function matches literally are not up for grabs
+                exact = set()
+                for n in ast.walk(self.current_fn):
+                    if isinstance(n, (ast.For, ast.AsyncFor, ast.While)):
+                        try:
+                            exact.add(self.loop_key(it, n, fr))
+                        except Exception:  # pylint: disable=broad-except
+                            pass
+                self._exact_keys_cache = (ck, exact)
+            taken = self._exact_keys_cache[1]
+            cands = [k for k in cur.loops if k.startswith(head) and k not in taken]
+            if not cands and not isinstance(node, ast.While) and isinstance(node.target, ast.Name):
+                # the loop variable was renamed: the only remaining declared loop of the same kind keeps its
+                # invariant, and the declared variable name stays readable in its clauses (an alias)
+                kind = "async for " if isinstance(node, ast.AsyncFor) else "for "
+                cands = [k for k in cur.loops if k.startswith(kind) and k not in taken
+                         and k[len(kind):].split(" in ")[0].isidentifier()]
+                if len(cands) == 1:
+                    self.loop_alias = getattr(self, "loop_alias", {})
+                    self.loop_alias[cands[0]] = (cands[0][len(kind):].split(" in ")[0], node.target.id)
             if len(cands) == 1:
                 key = cands[0]
                 sp = cur.loops[key]
@@ -853,6 +870,9 @@ class Engine:
                     it.assign_target(node.target, self.make_sym(ctx, stream.shape, fresh_name("item")), fr)
                 elif is_for:
                     it.assign_target(node.target, seq.get(iz), fr)
+                al = getattr(self, "loop_alias", {}).get(next((k for k, v in self.current.loops.items() if v is spec), None))
+                if al is not None and al[1] in fr.locals:
+                    fr.locals[al[0]] = fr.locals[al[1]]
                 injected = [k for k in ctx.ghost if k not in fr.locals]
                 for k in injected:
                     fr.locals[k] = ctx.ghost[k]     # the contract's ghost inputs are readable in ghost code
